@@ -423,8 +423,9 @@ SCALAR_KINDS = ["str", "int", "num", "bool", "date", "datetime", "uuid", "strfmt
 class Gen:
     """Random document generator.  `hostile` selects the name alphabet; `version` the notation family."""
 
-    def __init__(self, rng: random.Random, version: str | None = None, hostile: float = 0.0, max_depth: int = 3):
+    def __init__(self, rng: random.Random, version: str | None = None, hostile: float = 0.0, max_depth: int = 3, defaults: float = 0.12):
         self.rng = rng
+        self.defaults = defaults
         self.version = version or rng.choice(["3.0.3", "3.1.0"])
         self.v31 = self.version.startswith("3.1")
         self.hostile = hostile
@@ -501,6 +502,27 @@ class Gen:
                 s["nullable"] = True
             self.features.add("null:enum_member")
         return s
+
+    def with_default(self, s: dict) -> dict:
+        """A valid `default` (canonical spelling) on a plain scalar / enum schema, with probability self.defaults."""
+        if not self.defaults or self.rng.random() >= self.defaults or not isinstance(s, dict) or not s or any(k in s for k in ("$ref", "oneOf", "anyOf", "allOf", "const", "default", "items", "properties")):
+            return s
+        t = s.get("type")
+        if isinstance(t, list):
+            t = next((x for x in t if x != "null"), None)
+        if t not in ("string", "integer", "number", "boolean") or s.get("format") == "binary":
+            return s
+        if "enum" in s:
+            vals = [v for v in s["enum"] if v is not None]
+            if not vals:
+                return s
+            v = self.rng.choice(vals)
+        else:
+            v = instance({k: x for k, x in s.items() if k not in ("nullable",)} | {"type": t}, {}, Tok(self.rng), "max")
+            if v is None or isinstance(v, (list, dict)):
+                return s
+        self.features.add("default:" + ("enum" if "enum" in s else str(s.get("format") or t)))
+        return dict(s, default=v)
 
     def make_nullable(self, s: dict) -> dict:
         if s == {} or "const" in s:
@@ -613,7 +635,7 @@ class Gen:
                 s = self.make_nullable(s)
             if self.rng.random() < 0.15 and isinstance(s, dict) and "$ref" not in s and s:
                 s = dict(s, description=f"desc of {pn}")
-            props[pn] = s
+            props[pn] = self.with_default(s)
         req = [p for p in props if self.rng.random() < 0.45]
         o: dict = {"type": "object", "properties": props}
         if req:
@@ -861,7 +883,7 @@ class Gen:
                         break
                 else:
                     continue
-                p = {"name": nm, "in": loc, "schema": self.param_schema(loc)}
+                p = {"name": nm, "in": loc, "schema": self.with_default(self.param_schema(loc))}
                 if rng.random() < 0.4:
                     p["required"] = True
                 if rng.random() < 0.1:
@@ -1043,7 +1065,7 @@ class Gen:
 
 def random_doc(seed_parts, hostile: float = 0.0, **kw) -> tuple[dict, set]:
     rng = random.Random(":".join(map(str, seed_parts)))
-    g = Gen(rng, hostile=hostile, version=kw.pop("version", None))
+    g = Gen(rng, hostile=hostile, version=kw.pop("version", None), **({"defaults": kw.pop("defaults")} if "defaults" in kw else {}))
     doc = g.document(**kw)
     return doc, g.features
 
